@@ -102,6 +102,18 @@ class Sub1(Base):
 class Sub2(Base):
     y: int = 0
 
+@dataclass
+class Leaf:
+    x: int = 0
+@dataclass
+class Tree:
+    leaves: List[Leaf] = field(default_factory=list)
+# registering these makes Tree (not recursive until then) a recursive type
+def leaf_to_tree(leaf: Leaf) -> Tree:
+    return Tree([])
+def leaf_from_tree(tree: Tree) -> Leaf:
+    return Leaf(len(tree.leaves))
+
 def coercer_str_len(cls, data):
     if cls is int and isinstance(data, str):
         return len(data)
@@ -180,6 +192,10 @@ OPS = {
     "serialized_a": lambda: serialized(owner=A)(a_serialized),
     "serialized_a_alias": lambda: serialized("aliased_method", owner=A)(a_serialized),
     "discriminator_base": lambda: discriminator("kind")(Base),
+    "serializer_leaf_as_tree": lambda: serializer(leaf_to_tree),
+    "deserializer_leaf_from_tree": lambda: deserializer(leaf_from_tree),
+    "reset_serializer_leaf": lambda: reset_serializer(Leaf),
+    "reset_deserializers_leaf": lambda: reset_deserializers(Leaf),
 }
 
 def _obs(fn):
@@ -215,6 +231,11 @@ OBS = {
     "de_list_a": lambda: deserialize(List[A], [{"some_field": 1}, {"some_field": "x"}]),
     "de_base": lambda: deserialize(Base, {"kind": "Sub1", "x": 1}),
     "schema_list_a": lambda: deserialization_schema(List[A], all_refs=True),
+    "ser_tree": lambda: serialize(Tree, Tree([Leaf(1), Leaf(2)])),
+    "de_tree": lambda: deserialize(Tree, {"leaves": [{"leaves": []}, {"leaves": [{"leaves": []}]}]}),
+    "de_tree_flat": lambda: deserialize(Tree, {"leaves": [{"x": 1}]}),
+    "schema_ser_tree": lambda: serialization_schema(Tree),
+    "schema_de_tree": lambda: deserialization_schema(Tree),
 }
 
 def observe_all(reset_each=False):
